@@ -1,7 +1,9 @@
 //! Group driver: runs the REAL kanidm code and records observed traces (ndjson) which TLC
 //! validates against the TLA+ specifications in /verif/spec. See /verif/DESIGN.md.
 use kvc::util::Opts;
+mod c04;
 mod c07;
+mod world;
 
 fn main() {
     let args: Vec<String> = std::env::args().collect();
@@ -11,6 +13,7 @@ fn main() {
     }
     let opts = Opts::parse(&args[2..]);
     let rc = match args[1].as_str() {
+        "c04" => c04::run(&opts),
         "c07" => c07::run(&opts),
         other => {
             eprintln!("unknown subcommand {other}");
